@@ -503,6 +503,29 @@ def hunts(quick, focus, timeout):
             cfg = make(o, 'search', c, 9950 + i, timeout)
             cfg['repro'] = False
             out.append(cfg)
+    # a clock that does not advance during the task: the history still gets its one `time` entry (0.0)
+    for i, o in enumerate(opts):
+        if i % 4 and len(opts) > 3:
+            continue
+        c = {'objective': 'sphere', 'ret': 'pyfloat', 'box': 'sym10', 'agents': 'min', 'n_variables': 1, 'n_dimensions': 1, 'n_iterations': [1, 2][i % 2],
+             'draws': 'seeded', 'hp': 'default', 'store_best_only': bool(i % 2), 'hook': 'observe', 'functions': 'arith', 'depth': (1, 2), 'n_terminals': 2}
+        cfg = make(o, WR[o]['spaces'][0], c, 9915, timeout)
+        cfg['clock'] = 'frozen'
+        cfg['only_props'] = ['C04']
+        cfg['repro'] = False
+        out.append(cfg)
+    # degenerate fitness sums (all-zero, constant, plateau objectives) for the optimizers that normalise by them, with Python-float AND
+    # NumPy-scalar fitnesses: the recorded 0/0 findings raise only for Python floats, NumPy scalars divide to NaN / inf and go on
+    for o in opts:
+        if o not in ('BHA', 'GSA', 'WCA'):
+            continue
+        for i, obj in enumerate(['zero', 'constant', 'plateau']):
+            for j, ret in enumerate(['npscalar', 'pyfloat']):
+                c = {'objective': obj, 'ret': ret, 'box': ['sym10', 'asym', 'unit'][i], 'agents': [4, 'min', 6][i], 'n_variables': [2, 1, 3][i],
+                     'n_dimensions': 1, 'n_iterations': [3, 1, 5][i], 'draws': 'seeded', 'hp': 'default', 'store_best_only': False, 'hook': 'observe'}
+                cfg = make(o, WR[o]['spaces'][(i + j) % len(WR[o]['spaces'])], c, 9920 + 2 * i + j, timeout)
+                cfg['repro'] = False
+                out.append(cfg)
     # build / re-assign / run: hyperparameters re-assigned through their public setters after construction -- to other values of the
     # working range, and (SCA, BA: no adaptive hyperparameter reads them) a lower end re-assigned above the upper end, which the
     # setters accept and the update samples from as it stands.  Judged for C15: the task leaves every one of them alone
